@@ -825,3 +825,138 @@ impl RegexVec {
             .collect()
     }
 }
+
+// Verification hook (feature `llg_verif`): the regex of every lexeme as a byte-level s-expression.
+#[cfg(feature = "llg_verif")]
+impl RegexVec {
+    /// `(sexp, lazy)` per lexeme; `(empty)` for a lexeme whose regex was found empty at construction;
+    /// `None` when the expression uses a construct outside the exported syntax (look-ahead, remainder)
+    /// or is too large
+    pub fn verif_lexeme_rx(&self) -> Vec<(Option<String>, bool)> {
+        use std::fmt::Write;
+        // `derivre::ast::Expr` cannot be named from here: nodes are read through tags, argument lists,
+        // `matches_byte`, the derivative (byte strings) and the printed repetition suffix
+        fn go(x: &mut ExprSet, dc: &mut DerivCache, e: ExprRef, out: &mut String) -> bool {
+            if out.len() > 60_000 {
+                return false;
+            }
+            let args: Vec<ExprRef> = x.get_args(e).to_vec();
+            let tag = format!("{:?}", x.get_tag(e));
+            match tag.as_str() {
+                "EmptyString" => out.push_str("(eps)"),
+                "NoMatch" => out.push_str("(empty)"),
+                "Byte" | "ByteSet" => {
+                    let mut ranges: Vec<(usize, usize)> = vec![];
+                    for b in 0..256usize {
+                        if x.get(e).matches_byte(b as u8) {
+                            match ranges.last_mut() {
+                                Some(r) if r.1 + 1 == b => r.1 = b,
+                                _ => ranges.push((b, b)),
+                            }
+                        }
+                    }
+                    let rs: Vec<String> = ranges.iter().map(|(a, b)| format!("{a}:{b}")).collect();
+                    let _ = write!(out, "(set {})", if rs.is_empty() { "-".to_string() } else { rs.join(",") });
+                }
+                "ByteConcat" => {
+                    out.push_str("(cat (lit ");
+                    let mut cur = e;
+                    let mut n = 0;
+                    while format!("{:?}", x.get_tag(cur)) == "ByteConcat" {
+                        let Some(b) = (0..=255u8).find(|b| x.get(cur).matches_byte(*b)) else { return false };
+                        let _ = write!(out, "{b:02x}");
+                        cur = dc.derivative(x, cur, b);
+                        n += 1;
+                        if n > 100_000 {
+                            return false;
+                        }
+                    }
+                    out.push_str(") ");
+                    if !go(x, dc, cur, out) {
+                        return false;
+                    }
+                    out.push(')');
+                }
+                "Not" => {
+                    out.push_str("(not ");
+                    if !go(x, dc, args[0], out) {
+                        return false;
+                    }
+                    out.push(')');
+                }
+                "Concat" | "Or" => {
+                    out.push_str(if tag == "Or" { "(alt" } else { "(cat" });
+                    for a in args {
+                        out.push(' ');
+                        if !go(x, dc, a, out) {
+                            return false;
+                        }
+                    }
+                    out.push(')');
+                }
+                "And" => {
+                    // n-ary intersection as nested binary ones
+                    for (i, a) in args.iter().enumerate() {
+                        if i + 1 < args.len() {
+                            out.push_str("(and ");
+                        }
+                        if !go(x, dc, *a, out) {
+                            return false;
+                        }
+                        if i + 1 < args.len() {
+                            out.push(' ');
+                        }
+                    }
+                    for _ in 1..args.len() {
+                        out.push(')');
+                    }
+                }
+                "Repeat" => {
+                    let s = x.expr_to_string_max_len(e, usize::MAX);
+                    let (m, n) = if s.ends_with('*') {
+                        (0u32, None)
+                    } else if s.ends_with('+') {
+                        (1, None)
+                    } else if s.ends_with('?') {
+                        (0, Some(1u32))
+                    } else if let Some(p) = s.rfind('{') {
+                        let body = s[p + 1..].trim_end_matches('}');
+                        let Some((a, b)) = body.split_once(", ") else { return false };
+                        let (Ok(a), Ok(b)) = (a.parse::<u32>(), b.parse::<u32>()) else { return false };
+                        (a, if b == u32::MAX { None } else { Some(b) })
+                    } else {
+                        return false;
+                    };
+                    let _ = write!(out, "(rep {m} {} ", n.map(|n| n.to_string()).unwrap_or("inf".to_string()));
+                    if !go(x, dc, args[0], out) {
+                        return false;
+                    }
+                    out.push(')');
+                }
+                _ => return false,
+            }
+            true
+        }
+        let mut x = self.exprs.clone();
+        let mut dc = DerivCache::new();
+        (0..self.rx_list.len())
+            .map(|i| {
+                let mut s = String::new();
+                let ok = go(&mut x, &mut dc, self.rx_list[i], &mut s);
+                (ok.then_some(s), self.lazy.contains(LexemeIdx::new(i)))
+            })
+            .collect()
+    }
+
+    /// lexemes of a state: possible, accepting (nullable), chosen by the lowest-match rule
+    pub fn verif_state_lexemes(&self, state: StateID) -> (Vec<u32>, Vec<u32>, Vec<u32>) {
+        let d = self.state_desc(state);
+        let f = |m: &MatchingLexemes| m.as_slice().iter().map(|l| l.as_usize() as u32).collect::<Vec<_>>();
+        (
+            d.possible.iter().map(|l| l.as_usize() as u32).collect(),
+            f(&d.greedy_accepting),
+            f(&d.lazy_accepting),
+        )
+    }
+}
+
